@@ -218,8 +218,8 @@ func prefilterFunc(pattern string) func(string) bool {
 		// A literal is the prefix/suffix constraint only when it survived
 		// filterShort (len >= 2), meaning it IS the first/last literal in the
 		// pattern and not replaced by a longer one that appeared elsewhere.
-		usePrefix := hasBeginAnchor(re) && len(origFirst) >= 2
-		useSuffix := hasEndAnchor(re) && len(origLast) >= 2
+		usePrefix := len(origFirst) >= 2 && beginAnchoredLiteral(re, caseInsensitive) == origFirst
+		useSuffix := len(origLast) >= 2 && endAnchoredLiteral(re, caseInsensitive) == origLast
 		if !usePrefix && !useSuffix {
 			// No anchor: sort longest-first for best early exit.
 			slices.SortFunc(filtered, func(a, b string) int { return len(b) - len(a) })
@@ -998,6 +998,39 @@ func hasEndAnchor(re *syntax.Regexp) bool {
 	return false
 }
 
+// beginAnchoredLiteral returns the literal that immediately follows a \A anchor
+// at the start of re, or "" when the pattern is not start-anchored or something
+// other than a literal (e.g. .*) sits between the anchor and the first literal.
+// Only in that case does the first required literal have to be a prefix of the input.
+func beginAnchoredLiteral(re *syntax.Regexp, ci bool) string {
+	for re.Op == syntax.OpCapture {
+		re = re.Sub[0]
+	}
+	if re.Op != syntax.OpConcat || len(re.Sub) < 2 || !hasBeginAnchor(re.Sub[0]) {
+		return ""
+	}
+	next := re.Sub[1]
+	for next.Op == syntax.OpCapture {
+		next = next.Sub[0]
+	}
+	return rawLiteral(next, ci)
+}
+
+// endAnchoredLiteral is the mirror image of beginAnchoredLiteral for \z.
+func endAnchoredLiteral(re *syntax.Regexp, ci bool) string {
+	for re.Op == syntax.OpCapture {
+		re = re.Sub[0]
+	}
+	if re.Op != syntax.OpConcat || len(re.Sub) < 2 || !hasEndAnchor(re.Sub[len(re.Sub)-1]) {
+		return ""
+	}
+	prev := re.Sub[len(re.Sub)-2]
+	for prev.Op == syntax.OpCapture {
+		prev = prev.Sub[0]
+	}
+	return rawLiteral(prev, ci)
+}
+
 // hasPrefixFoldASCII reports whether s begins with prefix (ASCII case-insensitive).
 // prefix must already be lowercase.
 func hasPrefixFoldASCII(s, prefix string) bool {
@@ -1103,8 +1136,8 @@ func buildCombinedPF(v combinedRequired, ci bool, re *syntax.Regexp) func(string
 
 	var allPF func(string) bool
 	if len(filteredAll) > 0 {
-		usePrefix := hasBeginAnchor(re) && len(origFirst) >= 2
-		useSuffix := hasEndAnchor(re) && len(origLast) >= 2
+		usePrefix := len(origFirst) >= 2 && beginAnchoredLiteral(re, ci) == origFirst
+		useSuffix := len(origLast) >= 2 && endAnchoredLiteral(re, ci) == origLast
 		if !usePrefix && !useSuffix {
 			slices.SortFunc(filteredAll, func(a, b string) int { return len(b) - len(a) })
 		}
